@@ -261,6 +261,8 @@ def run(ctx):
     from ..rules_common import check_effect_tables
     check_effect_tables(ctx, "C14")
     check_presence_tests(ctx, "C14.PRESENCE", classes=ARG_SCOPE.get("C14", []))
+    from ..rules_common import check_param_rebinding
+    check_param_rebinding(ctx, "C14.PARAMS", classes=ARG_SCOPE.get("C14", []))
 
     # ---------------------------------------------------------------- C14.STATELESS
     # parse() is a function of its arguments: nothing in the parser module keeps state between calls in a class
